@@ -19,6 +19,14 @@
 
 
 
+#include <new>
+
+
+
+#include <xercesc/util/OutOfMemoryException.hpp>
+
+
+
 #include "xercesc/sax/ErrorHandler.hpp"
 #include "xercesc/sax/SAXParseException.hpp"
 
@@ -212,6 +220,16 @@ parseDoc(
                     uri,
                     base,
                     &theErrorHandler);
+    }
+    catch(const std::bad_alloc&)
+    {
+        // Running out of memory is not a property of
+        // the document, so don't hide it.
+        throw;
+    }
+    catch(const xercesc::OutOfMemoryException&)
+    {
+        throw;
     }
     catch(...)
     {
